@@ -24,3 +24,48 @@ pub fn handmade_json(id: &str, method: &str) -> Box<RawValue> {
 	let json = format!(r#"{{"jsonrpc":"2.0","method":"{method}","params":{{"subscription":"{id}"}}}}"#);
 	RawValue::from_string(json).expect("valid json")
 }
+
+/// a hand-driven serde_json Deserializer that is never asked whether the input ended (C01.R7): trailing bytes after the
+/// first value are silently accepted, unlike `serde_json::from_slice`
+pub fn decode_prefix(data: &[u8]) -> Result<serde_json::Value, serde_json::Error> {
+	use serde::Deserialize;
+	let mut de = serde_json::Deserializer::from_slice(data);
+	let v = serde_json::Value::deserialize(&mut de)?;
+	Ok(v)
+}
+
+/// the strict twin of `decode_prefix`: must NOT be reported
+pub fn decode_whole(data: &[u8]) -> Result<serde_json::Value, serde_json::Error> {
+	use serde::Deserialize;
+	let mut de = serde_json::Deserializer::from_slice(data);
+	let v = serde_json::Value::deserialize(&mut de)?;
+	de.end()?;
+	Ok(v)
+}
+
+/// request ids ordered with `Id`'s derived `Ord` (C03.R7): numeric for `Id::Number` but lexicographic for `Id::Str`
+/// ("10" < "8"), so a range of ids computed this way is wrong for string ids
+pub fn id_span<'a>(ids: &'a [jsonrpsee_types::Id<'a>]) -> Option<(&'a jsonrpsee_types::Id<'a>, &'a jsonrpsee_types::Id<'a>)> {
+	Some((ids.iter().min()?, ids.iter().max()?))
+}
+
+/// second shape of the same mistake: explicit comparison
+pub fn id_before(a: &jsonrpsee_types::Id<'_>, b: &jsonrpsee_types::Id<'_>) -> bool {
+	a < b
+}
+
+/// a std mutex locked again while its guard is alive (C09.R6 / double_lock_scan): blocks forever
+pub fn relock(m: &std::sync::Mutex<Vec<u8>>) -> usize {
+	let mut g = m.lock().expect("not poisoned");
+	g.push(1);
+	let n = m.lock().expect("not poisoned").len();
+	n + g.len()
+}
+
+/// twin that must NOT be reported: the first guard is dropped before the second acquisition
+pub fn lock_twice_sequentially(m: &std::sync::Mutex<Vec<u8>>) -> usize {
+	let mut g = m.lock().expect("not poisoned");
+	g.push(1);
+	drop(g);
+	m.lock().expect("not poisoned").len()
+}
